@@ -41,7 +41,7 @@ func (C10) Generate(c *Ctx, r *Rand, index int) *Scenario {
 		format = "json"
 		opts.Format = "json"
 	case 2:
-		format = Pick(rs, []string{"props", "csv", "tsv", "xml", "toml", "lua"})
+		format = Pick(rs, []string{"props", "csv", "tsv", "xml", "toml", "lua", "lua", "base64", "uri"})
 		opts.Format = format
 		opts.AllowStdin = false
 		opts.MaxFiles = 3
@@ -113,6 +113,10 @@ func (C10) Generate(c *Ctx, r *Rand, index int) *Scenario {
 		// encoders with a narrower domain (and some with state of their own): a result they refuse
 		// fails the per-document reference in the same way
 		argv = append(argv, "-o="+out)
+	}
+	if format == "base64" || format == "uri" {
+		argv = append(argv, "-p="+format)
+		sc.Meta["keep_flags"] = []any{"-p=" + format}
 	}
 	if format == "json" {
 		for _, f := range sc.Files {
